@@ -171,7 +171,7 @@ func (self *Parser) implBlockHead() (ast.ImplBlock, *errors.Error) {
 		SingletonIdent: singleton,
 		UsingTemplate:  usingTemplate,
 		Methods:        methods,
-		Span:           startLoc.Until(self.CurrentToken.Span.End, self.Filename),
+		Span:           startLoc.Until(self.PreviousToken.Span.End, self.Filename),
 	}, nil
 }
 
